@@ -36,6 +36,7 @@ class Report:
         self.n_updates = 0
         self.update_order = []
         self.provider_logs = {}
+        self.first_attempt = None
 
 
 def run_spec(spec, *, connect_only=False, memory=None, location="spill", check_model=True, listeners=None, on_built=None):
@@ -150,6 +151,14 @@ def run_spec(spec, *, connect_only=False, memory=None, location="spill", check_m
     if on_built:
         on_built(b)
     start = T0 + H(spec["start"])
+    if b.deferred is not None:
+        # history: a first run with a forgotten link is refused, the link is added, the same composition runs again
+        try:
+            b.composition.run(start_time=start, end_time=T0 + H(spec["end"]))
+            rep.first_attempt = "ok"
+        except Exception as e:  # pylint: disable=broad-except
+            rep.first_attempt = type(e).__name__
+        b.deferred()
     try:
         rep.phase = "connect"
         b.composition.connect(start)
